@@ -9,20 +9,6 @@ import SkNet.Lemmas.Complete
 namespace SkNet.Cycles
 open SkNet SkNet.Connectivity
 
-theorem edgeGone_mono {a a' : Rows} (hs : a'.Sub a) {rp : List Nat} (h : edgeGone a rp = true) :
-    edgeGone a' rp = true := by
-  match rp with
-  | [] => simp [edgeGone] at h
-  | [_] => simp [edgeGone] at h
-  | last :: prev :: _ =>
-    simp only [edgeGone, Bool.not_eq_eq_eq_not, Bool.not_true] at h ⊢
-    cases hh : a'.has prev last with
-    | false => rfl
-    | true =>
-      have : last ∈ a'.row prev := by simpa [Rows.has] using hh
-      have := hs.2 prev last this
-      simp [Rows.has, this] at h
-
 /-- what one pop of the undirected traversal does -/
 theorem breakNeighborsUnd_effect (cur : Nat) (rp : List Nat) (nbs : List Nat) (a : Rows) (stack : List (List Nat)) :
     (breakNeighborsUnd cur rp nbs (a, stack)).1.Sub a ∧
